@@ -180,6 +180,36 @@ impl Check for C13 {
                 }
             }
         });
+        // wide and tall surfaces: device coordinates beyond 256
+        run.bound("wide-tall", "300x2 and 2x300 surfaces x 2 images x pad/repeat x nearest/bilinear x 4 source transforms x 2 alphas".to_string());
+        run.par(8, |s, l| {
+            let (w, h) = if s % 2 == 0 { (300, 2) } else { (2, 300) };
+            let repeat = (s / 2) % 2 == 1;
+            let bilinear = s / 4 == 1;
+            for (ii, &(iw, ih)) in [(3, 2), (2, 3)].iter().enumerate() {
+                let data = image_of(iw, ih, &DISTINCT16, ii + 5);
+                for t in [IDENT, [1., 0., 0., 1., -250., -250.], [0.5, 0., 0., 0.5, 0.25, 0.25], [1., 0., 0., 1., -255.5, -257.25]] {
+                    for alpha in [1.0f32, 0.5] {
+                        let src = SrcSpec::Image { w: iw, h: ih, data: data.clone(), repeat, bilinear, xf: t };
+                        let scene = Scene { w, h, dst: Dst::White, ops: vec![Op::Fill(PathSpec::rect(-10., -10., 400., 400.), src, Opts { mode: BlendMode::Src, alpha, aa: true })] };
+                        l.states += 1;
+                        l.transitions += 1;
+                        l.traces += 1;
+                        l.evals += 1;
+                        match eval(&scene) {
+                            Ok((hsh, n, interp)) => {
+                                l.outcome(hsh);
+                                l.count("pixels_checked", n);
+                                if interp {
+                                    l.nontrivial += 1;
+                                }
+                            }
+                            Err(v) => run.report(20_000 + s, v),
+                        }
+                    }
+                }
+            }
+        });
         // draw_image_at / draw_image_with_size_at
         let pos: Vec<f32> = vec![-2.0, -0.75, 0.0, 0.25, 0.5, 1.0, 1.75, 3.0, 4.5];
         let sizes: Vec<(f32, f32)> = vec![(0.0, 0.0), (0.5, 0.5), (2.0, 2.0), (2.0, 0.5), (1.5, 3.0)];
